@@ -21,6 +21,8 @@ func init() {
 		Assumptions: []string{"function bodies are built through the Function.build field (a dynamic call), so the static call graph of exported API functions contains no builder code"},
 		Run:         runC14,
 		Mutants: []Mutant{
+			{Name: "lt-skips-latch-predecessors", File: "go/ir/dom.go", Rule: "R14.4", KeyPart: "semidominator-considers-every-predecessor",
+				Old: "\t\tfor _, v := range w.Preds {\n\t\t\tu := lt.eval(v)\n", New: "\t\tfor _, v := range w.Preds {\n\t\t\tif v == w || lt.parent[v.Index] == w {\n\t\t\t\tcontinue\n\t\t\t}\n\t\t\tu := lt.eval(v)\n"},
 			{Name: "optimize-after-domtree", File: "go/ir/func.go", Rule: "R14.1", KeyPart: "finishBody",
 				Old: "\toptimizeBlocks(f)\n\tbuildReferrers(f)\n\tbuildDomTree(f)\n", New: "\tbuildReferrers(f)\n\tbuildDomTree(f)\n\toptimizeBlocks(f)\n"},
 			{Name: "exported-cfg-mutator", File: "go/ir/func.go", Rule: "R14.1", KeyPart: "exported",
@@ -354,5 +356,88 @@ func runC14(c *Ctx) {
 			cont = a1 && a2 && recRoot
 		}
 		c.Check(FuncKey(bdt)+"::both-roots-numbered", bdt.Pos(), cont, "the entry tree and the recover tree are both numbered, the second continuing the numbers of the first so that the two intervals are disjoint")
+	})
+	// R14.4: Lengauer–Tarjan step 2 takes every predecessor into account. The
+	// semidominator of w is a minimum over *all* edges v→w; an iteration that
+	// skips EVAL(v) for anything but w itself is only right on reducible graphs.
+	// Likewise the DFS numbering visits every successor, and step 3 / step 4
+	// run for every vertex (no skipped iteration).
+	c.Rule("R14.4", func() {
+		c.Floor("R14.4", 3)
+		bdt := c.Func("go/ir", "buildDomTree")
+		isRet := func(in ssa.Instruction) bool { _, ok := in.(*ssa.Return); return ok }
+		// loops over w.Preds in buildDomTree
+		n := 0
+		Instrs(bdt, false, func(in ssa.Instruction) {
+			u, ok := in.(*ssa.UnOp)
+			if !ok || u.Op != token.MUL {
+				return
+			}
+			ia, ok := u.X.(*ssa.IndexAddr)
+			if !ok || !DerivesLocal(ia.X, IsFieldOf("ir.BasicBlock", "Preds")) {
+				return
+			}
+			// the block whose Preds are iterated
+			var w ssa.Value
+			for x := range BackSlice(ia.X, SliceOpts{NoMemory: true}) {
+				if fa, ok := x.(*ssa.FieldAddr); ok && IsFieldOf("ir.BasicBlock", "Preds")(fa) {
+					w = fa.X
+				}
+			}
+			var evals []ssa.Instruction
+			for _, ci := range Calls(bdt, false) {
+				if strings.HasSuffix(CalleeName(ci.Common()), "ir.ltState.eval") && len(ci.Common().Args) == 2 && Derives(ci.Common().Args[1], func(v ssa.Value) bool { return v == ssa.Value(u) }) {
+					evals = append(evals, ci)
+				}
+			}
+			self := EqEdges(bdt, func(x, y ssa.Value) bool { return x == ssa.Value(u) && y == w || y == ssa.Value(u) && x == w })
+			t, path := PathAvoiding(bdt, u, func(in ssa.Instruction) bool { return isRet(in) || in == ssa.Instruction(u) || in.Block() != u.Block() && in.Block().Dominates(u.Block()) && in == in.Block().Instrs[0] && ReachesFrom(bdt, u, in) && strings.Contains(in.Block().Comment, "loop") }, func(in ssa.Instruction) bool {
+				for _, e := range evals {
+					if e == in {
+						return true
+					}
+				}
+				return false
+			}, self)
+			c.Check(FuncKey(bdt)+"::semidominator-considers-every-predecessor#"+itoa(n), u.Pos(), len(evals) > 0 && t == nil, "every predecessor v of w must go through EVAL(v) when w's semidominator is computed (only v == w may be skipped): sdom(w) is the minimum over all edges into w, and skipping a predecessor is wrong on irreducible graphs; path that skips it: %s", PathString(bdt, path))
+			n++
+		})
+		if n == 0 {
+			c.Undecided("buildDomTree no longer iterates over a block's predecessors")
+		}
+		// the DFS numbers every successor
+		dfs := c.Func("go/ir", "(*ltState).dfs")
+		var succ *ssa.UnOp
+		Instrs(dfs, false, func(in ssa.Instruction) {
+			if u, ok := in.(*ssa.UnOp); ok && u.Op == token.MUL {
+				if ia, ok := u.X.(*ssa.IndexAddr); ok && DerivesLocal(ia.X, IsFieldOf("ir.BasicBlock", "Succs")) {
+					succ = u
+				}
+			}
+		})
+		if succ == nil {
+			c.Undecided("(*ltState).dfs no longer iterates over Succs")
+		}
+		var rec []ssa.Instruction
+		for _, ci := range Calls(dfs, false) {
+			if ci.Common().StaticCallee() == dfs {
+				rec = append(rec, ci)
+			}
+		}
+		// a successor may be skipped only if it already has a semidominator (was visited)
+		visited := EqEdges(dfs, func(x, y ssa.Value) bool {
+			return IsNilConst(y) && DerivesLocal(x, IsFieldOf("ir.ltState", "sdom"))
+		})
+		t, path := PathAvoiding(dfs, succ, func(in ssa.Instruction) bool { return isRet(in) || in == ssa.Instruction(succ) }, func(in ssa.Instruction) bool {
+			for _, r := range rec {
+				if r == in {
+					return true
+				}
+			}
+			return false
+		}, ComplementEdges(visited))
+		c.Check(FuncKey(dfs)+"::numbers-every-unvisited-successor", succ.Pos(), len(rec) > 0 && len(visited) > 0 && t == nil, "the preorder DFS recurses into every successor that has no semidominator yet; path that skips one: %s", PathString(dfs, path))
+		// nothing in buildDomTree's vertex loops is skipped by a continue that depends on the vertex (step 3/4 run for every vertex)
+		c.Check(FuncKey(bdt)+"::uses-eval-link-dfs", bdt.Pos(), len(CallsTo(bdt, false, irPkg+".ltState.eval")) >= 2 && len(CallsTo(bdt, false, irPkg+".ltState.link")) == 1 && len(CallsTo(bdt, false, irPkg+".ltState.dfs")) >= 1, "buildDomTree runs the DFS numbering, EVAL in steps 2 and 3, and LINK once per vertex")
 	})
 }
